@@ -39,10 +39,13 @@ ArgForms == {"lit", "var", "filtered", "assigned"}
 Cases ==
   [g : {"basic"}, top : 1..3, rel : {"same", "sub"}, arg : ArgForms, where : {"disk", "cache", "both", "missing"}, decoy : BOOLEAN]
   \cup [g : {"nested"}, top : 1..3, where : {"disk", "cache"}]
+  \* the intermediate file lives in a sub-directory: the inner include is still resolved against the
+  \* directory of the path the (top-level) template was parsed with; a decoy sits next to the intermediate file
+  \cup [g : {"nestedsub"}, top : 1..3, where : {"disk", "cache"}]
   \cup [g : {"loop"}, top : 1..2]
   \cup [g : {"fail"}, top : 1..2, how : {"nonstring-int", "nonstring-nil", "nonstring-arr", "inner-error", "inner-syntax", "missing-nested"}]
 
-RelOf(x) == IF x.g = "basic" /\ x.rel = "sub" THEN SUB_F ELSE F_LIQ
+RelOf(x) == IF (x.g = "basic" /\ x.rel = "sub") \/ x.g = "nestedsub" THEN SUB_F ELSE F_LIQ
 Target(x) == JoinPath(DirOf(TOPS[x.top]), RelOf(x))
 IncArg(x) ==
   CASE x.arg = "lit" -> Lit(S(RelOf(x)))
@@ -57,6 +60,7 @@ ProgOf(x) ==
          <<T(<<60>>), AssignW>> \o (IF x.arg = "assigned" THEN <<[t |-> "assign", name |-> <<109>>, e |-> Lit(S(RelOf(x)))]>> ELSE <<>>)
          \o <<Inc(IncArg(x)), T(<<62>>)>>
     [] x.g = "nested" -> <<T(<<60>>), AssignW, Inc(Lit(S(F_LIQ))), T(<<62>>)>>
+    [] x.g = "nestedsub" -> <<T(<<60>>), AssignW, Inc(Lit(S(SUB_F))), T(<<62>>)>>
     [] x.g = "loop" -> <<[t |-> "for", tag |-> "for", var |-> VV, coll |-> [t |-> "range", a |-> Lit(IntV(1)), b |-> Lit(IntV(3))],
                          body |-> <<Inc(Lit(S(F_LIQ))), T(<<44>>)>>], Ob(Var(VV))>>
     [] x.g = "fail" ->
@@ -73,6 +77,10 @@ FilesOf(x) ==
     [] x.g = "nested" ->
          (IF x.where = "disk" THEN << <<Target(x), <<T(<<40>>), Inc(Lit(S(G_LIQ))), T(<<41>>)>> >>,
                                      <<JoinPath(DirOf(TOPS[x.top]), G_LIQ), Body(NEST)>> >> ELSE <<>>)
+    [] x.g = "nestedsub" ->
+         (IF x.where = "disk" THEN << <<Target(x), <<T(<<40>>), Inc(Lit(S(G_LIQ))), T(<<41>>)>> >>,
+                                     <<JoinPath(DirOf(TOPS[x.top]), G_LIQ), Body(NEST)>>,
+                                     <<JoinPath(DirOf(Target(x)), G_LIQ), Body(DECOY)>> >> ELSE <<>>)
     [] x.g = "loop" -> << <<Target(x), Body(DISK)>> >>
     [] x.g = "fail" ->
          (CASE x.how = "inner-error" -> << <<Target(x), <<T(<<97>>), Failing>>>> >>
@@ -83,6 +91,9 @@ CacheOf(x) ==
   CASE x.g = "basic" -> IF x.where \in {"cache", "both"} THEN << <<Target(x), Body(CACHE)>> >> ELSE <<>>
     [] x.g = "nested" -> IF x.where = "cache" THEN << <<Target(x), <<T(<<40>>), Inc(Lit(S(G_LIQ))), T(<<41>>)>> >>,
                                                      <<JoinPath(DirOf(TOPS[x.top]), G_LIQ), Body(NEST)>> >> ELSE <<>>
+    [] x.g = "nestedsub" -> IF x.where = "cache" THEN << <<Target(x), <<T(<<40>>), Inc(Lit(S(G_LIQ))), T(<<41>>)>> >>,
+                                                        <<JoinPath(DirOf(TOPS[x.top]), G_LIQ), Body(NEST)>>,
+                                                        <<JoinPath(DirOf(Target(x)), G_LIQ), Body(DECOY)>> >> ELSE <<>>
     [] OTHER -> <<>>
 
 Cx(x) == [Cx0 EXCEPT !.path = TOPS[x.top], !.fs = FilesOf(x), !.cache = CacheOf(x)]
@@ -97,7 +108,7 @@ IncludeIsInlining ==
      IF c.where = "missing" THEN st.status = "error"
      ELSE st.status = "ok" /\ st.sink.acc = <<60, 91>> \o Tag(c) \o <<58, 86, 124, 87, 93, 62>>
 NestedAndLoop ==
-  /\ (c.g = "nested" /\ st.status # "run") => st.status = "ok" /\ st.sink.acc = <<60, 40, 91>> \o NEST \o <<58, 86, 124, 87, 93, 41, 62>>
+  /\ (c.g \in {"nested", "nestedsub"} /\ st.status # "run") => st.status = "ok" /\ st.sink.acc = <<60, 40, 91>> \o NEST \o <<58, 86, 124, 87, 93, 41, 62>>
   /\ (c.g = "loop" /\ st.status # "run") =>
         st.status = "ok" /\ st.sink.acc = Flatten([i \in 1..3 |-> <<91>> \o DISK \o <<58>> \o IntText(i) \o <<124, 93, 44>>]) \o <<86>>
 FailuresFail == (c.g = "fail" /\ st.status # "run") => st.status = "error"
@@ -106,7 +117,7 @@ IncluderEnvKept == \A j \in 1..Len(st.k) : (st.k[j].f = "seq" /\ st.k[j].end = "
 
 IdOf(x) ==
   CASE x.g = "basic" -> "basic-" \o ToString(x.top) \o "-" \o x.rel \o "-" \o x.arg \o "-" \o x.where \o "-" \o ToString(x.decoy)
-    [] x.g = "nested" -> "nested-" \o ToString(x.top) \o "-" \o x.where
+    [] x.g \in {"nested", "nestedsub"} -> x.g \o "-" \o ToString(x.top) \o "-" \o x.where
     [] x.g = "loop" -> "loop-" \o ToString(x.top)
     [] x.g = "fail" -> "fail-" \o ToString(x.top) \o "-" \o x.how
 EmitCase == st.status # "run" =>
